@@ -111,6 +111,8 @@ def tlc_trace(module, cfg, trace_path, timeout=1800, extra_env=None):
     flat = re.sub(r"\s*\n\s*", " ", out)
     for m in re.finditer(r'<<\s*"VIOLATION-AT",\s*(\d+),\s*"([^"]*)",\s*"((?:[^"\\]|\\.)*)"\s*>>', flat):
         viol.append((int(m.group(1)), m.group(2), m.group(3)))
+    drifts = [(int(m.group(1)), m.group(2)) for m in
+              re.finditer(r'<<\s*"DRIFT-AT",\s*(\d+),\s*"((?:[^"\\]|\\.)*)"\s*>>', flat)]
     notc = re.search(r'"TRACE-NOT-CONSUMED",\s*(\d+),\s*(\d+)', flat)
     gen = re.search(r"(\d+) states generated, (\d+) distinct states found", out)
     if gen is None or ("Error:" in out and notc is None and "Postcondition" not in out):
@@ -120,7 +122,7 @@ def tlc_trace(module, cfg, trace_path, timeout=1800, extra_env=None):
         sys.stdout.write(out[-4000:])
         raise ToolError(f"TLC error on {module}")
     return dict(consumed=notc is None, consumed_upto=int(notc.group(1)) if notc else None,
-                violations=viol, states=int(gen.group(2)), raw=out if notc else "")
+                violations=viol, drifts=drifts, states=int(gen.group(2)), raw=out if notc else "")
 
 
 def tlc_mc(module, cfg, workers=8, timeout=3600, extra_args=None, extra_env=None, heap="8g"):
